@@ -34,6 +34,11 @@ type obs struct {
 }
 
 func newServer(cfg *eio.ServerConfig) (*eio.Server, *httptest.Server, *obs) {
+	return newServerHook(cfg, nil)
+}
+
+// onSock, when set, runs inside the application's NewSocketCallback (a natural gate)
+func newServerHook(cfg *eio.ServerConfig, onSock func()) (*eio.Server, *httptest.Server, *obs) {
 	o := &obs{closedSid: map[string]bool{}}
 	if cfg == nil {
 		cfg = &eio.ServerConfig{}
@@ -41,6 +46,9 @@ func newServer(cfg *eio.ServerConfig) (*eio.Server, *httptest.Server, *obs) {
 	cfg.PingInterval, cfg.PingTimeout = 20*time.Second, 20*time.Second
 	srv := eio.NewServer(func(s eio.ServerSocket) *eio.Callbacks {
 		atomic.AddInt64(&o.newsock, 1)
+		if onSock != nil {
+			onSock()
+		}
 		return &eio.Callbacks{
 			OnPacket: func(ps ...*parser.Packet) {
 				for _, p := range ps {
@@ -219,14 +227,22 @@ func races(w *vtrace.Writer, res *vres.Result, n int) {
 		parked := make(chan struct{}, 8)
 		release := make(chan struct{})
 		gate := i%2 == 0
+		inAuth := i%4 == 0 // otherwise park inside the NewSocketCallback
+		park := func() {
+			parked <- struct{}{}
+			<-release
+		}
 		cfg := &eio.ServerConfig{Authenticator: func(w http.ResponseWriter, r *http.Request) bool {
-			if gate {
-				parked <- struct{}{}
-				<-release
+			if gate && inAuth {
+				park()
 			}
 			return true
 		}}
-		srv, ts, o := newServer(cfg)
+		var onSock func()
+		if gate && !inAuth {
+			onSock = park
+		}
+		srv, ts, o := newServerHook(cfg, onSock)
 		nh := 1 + i%3
 		var wg sync.WaitGroup
 		for h := 0; h < nh; h++ {
@@ -255,7 +271,7 @@ func races(w *vtrace.Writer, res *vres.Result, n int) {
 		}
 		wg.Wait()
 		time.Sleep(20 * time.Millisecond)
-		rec := vtrace.Rec{"ev": "race", "gate": gate, "handshakes": nh, "storeafter": eio.VerifStoreSize(srv),
+		rec := vtrace.Rec{"ev": "race", "gate": gate, "inAuth": inAuth, "handshakes": nh, "storeafter": eio.VerifStoreSize(srv),
 			"created": atomic.LoadInt64(&o.newsock), "closedcb": atomic.LoadInt64(&o.closedcb)}
 		w.Write([]vtrace.Rec{rec})
 		res.Case(fmt.Sprint("race", i), true)
